@@ -567,6 +567,9 @@ def check_c02(chk, tier):
 @prop("C17")
 def check_c17(chk, tier):
     _layout_check(chk, tier, "C17")
+    # the binary over the directed trees of the pipeline (among them reformatted copies of a file under the same name in
+    # sibling directories): the report of the tree is the union of the reports of its files analysed alone
+    _pipeline(chk, tier, "C17", [])
     chk.rule = ("Corpus programs (original and with every string literal replaced by code-like text) are lexed, laid out "
                 "one token per line to obtain the flag tokens of each of the 30 detectors, then re-laid out with gap "
                 "patterns enumerated by TLC (MC_C02_Emit), made injective (every token on its own line) and filled with "
